@@ -17,7 +17,7 @@
      rfc_keyuniq      7.8.2    the key tuples of the entries of one list (per parent instance) are pairwise different
      rfc_llval        7.7      configuration leaf-list: values pairwise different (state leaf-lists may repeat)
      rfc_case         7.9      nodes of at most one case of a choice exist
-     rfc_mand         7.6.5 7.10.? a mandatory leaf / anydata exists whenever it is required: its closest ancestor that is
+     rfc_mand         7.6.5 (7.10) a mandatory leaf / anydata exists whenever it is required: its closest ancestor that is
                                not a non-presence container exists, resp. - when that ancestor is a case - another node
                                of the case exists
      rfc_mand_choice  7.9.4    missing-choice; same enforcement rule
@@ -25,6 +25,8 @@
      rfc_max          7.7.6    too-many-elements; per parent instance
      rfc_unique       7.8.3    data-not-unique: among the entries in which all referenced leafs exist or have a default
                                value IN USE (7.6.1), the value combinations are pairwise different
+   All rules are read on the tree from which non-presence containers without children were removed (7.5.1: such a
+   container is semantically equivalent to its absence).
    NOT here (covered by the API-level oracle only): must 7.5.3, when 7.21.5, leafref / instance-identifier
    require-instance 9.9.3 / 9.13, config/state and input/output placement, if-feature (compiled away: C11). *)
 From LY Require Import Base Tree.
@@ -139,16 +141,20 @@ Section Rules.
   Definition rfc_keys (f : forest) : bool := forallb keys_node f.
 
   (* ---- 7.5 / 7.6 / 7.10: container, leaf, anydata exist in zero or one instances ------------ *)
-  Definition single_ctx (_ : list stree) (f : forest) : bool :=
-    forallb (fun d => multi (vs_info vs) (d_sid d) || (count f (d_sid d) <=? 1)) f.
+  Definition same_single (a b : dnode) : bool := (d_sid a =? d_sid b) && negb (multi (vs_info vs) (d_sid a)).
+  Definition single_ctx (_ : list stree) (f : forest) : bool := pairwise (fun a b => negb (same_single a b)) f.
   Definition rfc_single (f : forest) : bool := all_ctx single_ctx (vs_tree vs) f.
 
   (* ---- 7.8.2: the key values identify a list entry ------------------------------------------ *)
   Definition keyed_list (s : sid) : bool :=
     match kind vs s with KList => match si_keys (info vs s) with [] => false | _ => true end | _ => false end.
+  (* the values of the instances of leaf k among the children *)
+  Definition kvals (n : dnode) (k : sid) : list bytes := map d_val (insts (d_ch n) k).
+  Definition common (a b : list bytes) : bool := existsb (fun x => existsb (beq_bytes x) b) a.
+  (* two entries of one list with keys in which every key has the same value *)
   Definition same_keys (a b : dnode) : bool :=
     (d_sid a =? d_sid b) && keyed_list (d_sid a) &&
-    beq_bytes_list (key_vals (vs_info vs) a) (key_vals (vs_info vs) b).
+    forallb (fun k => common (kvals a k) (kvals b k)) (si_keys (info vs (d_sid a))).
   Definition keyuniq_ctx (_ : list stree) (f : forest) : bool := pairwise (fun a b => negb (same_keys a b)) f.
   Definition rfc_keyuniq (f : forest) : bool := all_ctx keyuniq_ctx (vs_tree vs) f.
 
@@ -219,11 +225,12 @@ Section Rules.
     all_ctx (req_ctx min_node (fun _ _ _ => true)) (vs_tree vs) f.
 
   (* ---- 7.7.6: max-elements (too-many-elements), per parent instance ------------------------- *)
-  Definition max_ctx (_ : list stree) (f : forest) : bool :=
-    forallb (fun d => match kind vs (d_sid d), si_max (info vs (d_sid d)) with
-                      | (KList | KLeafList), Some m => count f (d_sid d) <=? m
-                      | _, _ => true
-                      end) f.
+  Definition max_node (f : forest) (s : sid) : bool :=
+    match kind vs s, si_max (info vs s) with
+    | (KList | KLeafList), Some m => count f s <=? m
+    | _, _ => true
+    end.
+  Definition max_ctx (l : list stree) (f : forest) : bool := forallb (max_node f) (flat_map st_sids l).
   Definition rfc_max (f : forest) : bool := all_ctx max_ctx (vs_tree vs) f.
 
   (* ---- 7.8.3: unique (data-not-unique) ------------------------------------------------------ *)
@@ -266,8 +273,6 @@ Section Rules.
         end
     end.
 
-  Definition common (a b : list bytes) : bool := existsb (fun x => existsb (beq_bytes x) b) a.
-
   (* entries a and b of list s (schema children ls) agree on unique statement u: every referenced leaf has a value
      (or a default in use) in both and the values are equal *)
   Definition uq_conflict (ls : list stree) (u : list (list sid)) (a b : dnode) : bool :=
@@ -279,16 +284,42 @@ Section Rules.
   Definition uniques_of (s : sid) : list (list (list sid)) :=
     match find (fun e => fst e =? s) (vs_uniq vs) with Some e => snd e | None => [] end.
 
-  Definition unique_ctx (l : list stree) (f : forest) : bool :=
-    pairwise (fun a b => negb ((d_sid a =? d_sid b) &&
-                               existsb (fun u => uq_conflict (st_children l (d_sid a)) u a b) (uniques_of (d_sid a)))) f.
+  Definition unique_node (l : list stree) (f : forest) (s : sid) : bool :=
+    match kind vs s with
+    | KList => pairwise (fun a b => negb (existsb (fun u => uq_conflict (st_children l s) u a b) (uniques_of s))) (insts f s)
+    | _ => true
+    end.
+  Definition unique_ctx (l : list stree) (f : forest) : bool := forallb (unique_node l f) (flat_map st_sids l).
   Definition rfc_unique (f : forest) : bool := all_ctx unique_ctx (vs_tree vs) f.
 
+  (* ---- 7.5.1: a non-presence container has no meaning of its own; its presence with no child nodes is semantically
+          equivalent to its absence. The rules are read on the tree without such containers (innermost first). -------- *)
+  Fixpoint prune_node (n : dnode) : option dnode :=
+    match n with
+    | DN s v d m ch =>
+        let ch' := flat_map (fun c => match prune_node c with Some c' => [c'] | None => [] end) ch in
+        match kind vs s, ch' with
+        | KCont false, [] => None
+        | _, _ => Some (DN s v d m ch')
+        end
+    end.
+  Definition prune (f : forest) : forest :=
+    flat_map (fun c => match prune_node c with Some c' => [c'] | None => [] end) f.
+
   (* ---- the verdict --------------------------------------------------------------------------- *)
-  Definition rfc_valid (f : forest) : bool :=
+  Definition rules_hold (f : forest) : bool :=
     rfc_types f && rfc_keys f && rfc_single f && rfc_keyuniq f && rfc_llval f && rfc_case f &&
     rfc_mand f && rfc_mand_choice f && rfc_min f && rfc_max f && rfc_unique f.
+  Definition rfc_valid (f : forest) : bool := rules_hold (prune f).
 End Rules.
+
+(* every non-presence container of the tree has a child (then prune is the identity: ValidP.prune_id) *)
+Fixpoint no_empty_np_node (vs : vschema) (n : dnode) : bool :=
+  match n with
+  | DN s _ _ _ ch =>
+      (match kind vs s, ch with KCont false, [] => false | _, _ => true end) && forallb (no_empty_np_node vs) ch
+  end.
+Definition no_empty_np (vs : vschema) (f : forest) : bool := forallb (no_empty_np_node vs) f.
 
 (* ------------------------------------------------------------------------------------------- *)
 (* the data tree is an instance of the schema at all (not a constraint: what makes a tree readable as data of the
@@ -305,3 +336,90 @@ Fixpoint placed_node (vs : vschema) (l : list stree) (n : dnode) {struct n} : bo
       forallb (placed_node vs (st_children l s)) ch
   end.
 Definition placed (vs : vschema) (f : forest) : bool := forallb (placed_node vs (vs_tree vs)) f.
+
+(* ------------------------------------------------------------------------------------------- *)
+(* well-formed vschema (what the encoder tools/validenc.py produces from a compiled module; checked on every generated
+   schema by the correspondence run)                                                             *)
+(* ------------------------------------------------------------------------------------------- *)
+(* the elements of a choice are cases, cases occur only there *)
+Fixpoint shape (in_choice : bool) (t : stree) : bool :=
+  match t with
+  | TNode _ ch => negb in_choice && forallb (shape false) ch
+  | TChoice _ _ cs => negb in_choice && forallb (shape true) cs
+  | TCase _ _ ch => in_choice && forallb (shape false) ch
+  end.
+
+(* RFC 7950 section 3, mandatory node: a leaf / anydata / choice with mandatory true, a list / leaf-list with
+   min-elements > 0, a non-presence container with a mandatory node as a child *)
+Fixpoint mand_t (vs : vschema) (t : stree) : bool :=
+  match t with
+  | TNode s ch =>
+      match kind vs s with
+      | KLeaf | KAny => si_mand (info vs s)
+      | KList | KLeafList => negb (si_min (info vs s) =? 0)
+      | KCont false => existsb (mand_t vs) ch
+      | KCont true => false
+      end
+  | TChoice _ m _ => m
+  | TCase _ _ _ => false
+  end.
+
+(* 7.9.3: there must not be any mandatory nodes directly under the default case (the compiler enforces it) *)
+Fixpoint dflt_ok (vs : vschema) (t : stree) : bool :=
+  match t with
+  | TNode _ ch => forallb (dflt_ok vs) ch
+  | TChoice _ _ cs => forallb (dflt_ok vs) cs
+  | TCase _ d ch => (negb d || negb (existsb (mand_t vs) ch)) && forallb (dflt_ok vs) ch
+  end.
+
+(* list keys are leaves; the steps of a unique path are containers, its end a leaf *)
+Definition keys_ok (vs : vschema) : bool :=
+  forallb (fun e : sid * sinfo =>
+    forallb (fun k => match kind vs k with KLeaf => true | _ => false end) (si_keys (snd e))) (vs_info vs).
+
+Fixpoint upath_ok (vs : vschema) (p : list sid) : bool :=
+  match p with
+  | [] => false
+  | s :: p' =>
+      match p' with
+      | [] => match kind vs s with KLeaf => true | _ => false end
+      | _ => match kind vs s with KCont _ => upath_ok vs p' | _ => false end
+      end
+  end.
+Definition uniq_ok (vs : vschema) : bool :=
+  forallb (fun e : sid * list (list (list sid)) => forallb (forallb (upath_ok vs)) (snd e)) (vs_uniq vs).
+
+Definition vschema_ok (vs : vschema) : bool :=
+  forallb (shape false) (vs_tree vs) && forallb (dflt_ok vs) (vs_tree vs) && keys_ok vs && uniq_ok vs.
+
+(* no unique statement names a leaf with a default value that can be out of use: the leaf and the containers on the way
+   are not inside a choice and the containers are non-presence containers (outside of this libyang departs from 7.8.3:
+   ValidP.unique_default_refuted) *)
+Definition plain_in (s : sid) (t : stree) : option bool :=
+  match t with
+  | TNode s' _ => if s' =? s then Some true else None
+  | _ => if existsb (N.eqb s) (st_sids t) then Some false else None
+  end.
+Definition plain (l : list stree) (s : sid) : bool :=
+  match first_some (plain_in s) l with Some b => b | None => false end.
+
+Fixpoint path_plain (vs : vschema) (l : list stree) (p : list sid) {struct p} : bool :=
+  match p with
+  | [] => true
+  | s :: p' =>
+      match p' with
+      | [] => plain l s
+      | _ => plain l s && match kind vs s with KCont false => true | _ => false end && path_plain vs (st_children l s) p'
+      end
+  end.
+
+Fixpoint uniq_plain_t (vs : vschema) (t : stree) : bool :=
+  match t with
+  | TNode s ch =>
+      forallb (forallb (fun p => match si_dflts (info vs (last p 0)) with [] => true | _ => path_plain vs ch p end))
+              (uniques_of vs s) &&
+      forallb (uniq_plain_t vs) ch
+  | TChoice _ _ cs => forallb (uniq_plain_t vs) cs
+  | TCase _ _ ch => forallb (uniq_plain_t vs) ch
+  end.
+Definition uniq_plain (vs : vschema) : bool := forallb (uniq_plain_t vs) (vs_tree vs).
